@@ -198,6 +198,49 @@ int main(int argc, char **argv) {
 		s = exp(ss); TMCG_StackSecret<TMCG_CardSecret> dss; ok = dss.import(s);
 		if (!ok || exp(dss) != s) propfail("tstacksecret-roundtrip", "TMCG_StackSecret<TMCG_CardSecret> does not round-trip: " + s.substr(0, 200));
 	}
+	// ---- iostream operators at maximal line lengths (implementation-level oracle) ---------------------------
+	// operator>> for integers reads at most TMCG_MAX_VALUE_CHARS - 2 characters; cards, secrets and stacks are
+	// read as one line and parsed by import(), so their components may be even longer.
+	{
+		auto digits = [&](mpz_ptr v, size_t n) { mpz_ui_pow_ui(v, 62, n); mpz_sub_ui(v, v, 1 + gen().below(1000)); };   // exactly n base-62 digits
+		const size_t LMAX = TMCG_MAX_VALUE_CHARS - 2;
+		size_t lens[] = { LMAX - 1, LMAX };
+		for (size_t L : lens) {
+			digits(z, L);
+			std::stringstream ss; ss << z << std::endl;
+			bool ok = true; try { ss >> z2; } catch (...) { ok = false; }
+			if (!ok || !ss.good() || mpz_cmp(z, z2)) propfail("int-stream-maxlen", "integer of " + std::to_string(L) + " base-62 digits does not survive operator<< / operator>>");
+			Rec("streammax").t("int").d(L);
+		}
+		size_t clens[] = { LMAX - 1, LMAX, LMAX + 1500 };
+		for (size_t L1 : clens) for (size_t L2 : clens) {
+			VTMF_Card c, d; digits(c.c_1, L1); digits(c.c_2, L2);
+			std::stringstream ss; ss << c << std::endl; ss >> d;
+			if (!ss.good() || !(c == d)) propfail("vcard-stream-maxlen", "VTMF_Card with components of " + std::to_string(L1) + "/" + std::to_string(L2) + " digits does not survive operator<< / operator>>");
+			Rec("streammax").t("vcard").d(L1).d(L2);
+		}
+		for (size_t L : clens) {
+			VTMF_CardSecret cs, ds; digits(cs.r, L);
+			std::stringstream ss; ss << cs << std::endl; ss >> ds;
+			if (!ss.good() || mpz_cmp(cs.r, ds.r)) propfail("vsecret-stream-maxlen", "VTMF_CardSecret with " + std::to_string(L) + " digits does not survive the stream operators");
+			TMCG_Card tc(2, 2), td; for (int a = 0; a < 2; a++) for (int b = 0; b < 2; b++) digits(&tc.z[a][b], L);
+			std::stringstream s2; s2 << tc << std::endl; s2 >> td;
+			if (!s2.good() || !(tc == td)) propfail("tcard-stream-maxlen", "TMCG_Card 2x2 with " + std::to_string(L) + "-digit entries does not survive the stream operators");
+			TMCG_CardSecret ts(2, 2), tt; for (int a = 0; a < 2; a++) for (int b = 0; b < 2; b++) { digits(&ts.r[a][b], L); mpz_set_ui(&ts.b[a][b], (a + b) & 1); }
+			std::stringstream s3; s3 << ts << std::endl; s3 >> tt;
+			if (!s3.good() || exp(ts) != exp(tt)) propfail("tcardsecret-stream-maxlen", "TMCG_CardSecret 2x2 with " + std::to_string(L) + "-digit entries does not survive the stream operators");
+			Rec("streammax").t("secrets").d(L);
+		}
+		{	// stacks through the stream operators (one big line)
+			TMCG_Stack<VTMF_Card> st, st2; TMCG_StackSecret<VTMF_CardSecret> sc, sc2;
+			for (size_t a = 0; a < 3; a++) { VTMF_Card c; digits(c.c_1, LMAX); digits(c.c_2, LMAX); st.push(c); VTMF_CardSecret cs; digits(cs.r, LMAX); sc.push((a + 1) % 3, cs); }
+			std::stringstream ss; ss << st << std::endl; ss >> st2;
+			if (!ss.good() || !(st == st2)) propfail("vstack-stream-maxlen", "TMCG_Stack<VTMF_Card> with maximal components does not survive the stream operators");
+			std::stringstream s2; s2 << sc << std::endl; s2 >> sc2;
+			if (!s2.good() || exp(sc) != exp(sc2)) propfail("vstacksecret-stream-maxlen", "TMCG_StackSecret<VTMF_CardSecret> with maximal components does not survive the stream operators");
+			Rec("streammax").t("stacks").d(LMAX);
+		}
+	}
 	mpz_clear(z); mpz_clear(z2);
 	return 0;
 }
